@@ -779,7 +779,7 @@ fn damage_for_repair(h: &RepoHandle, rng: &mut Rng, stats: &mut Stats) -> Option
 }
 
 pub fn generate(thorough: bool, rng: &mut Rng, ops: &mut Vec<String>, stats: &mut Stats) {
-    let n = if thorough { 400 } else { 40 };
+    let n = if thorough { 1000 } else { 90 };
     match collision_repo() {
         Some(h) => {
             if let Some(m) = copy_model(&h) {
